@@ -326,6 +326,7 @@ import (
 type Spec struct {
 	Threads   [][]rt.Op ` + "`json:\"threads\"`" + `
 	Contexts  []string  ` + "`json:\"contexts\"`" + `
+	Setup     []rt.Op   ` + "`json:\"setup,omitempty\"`" + ` // run sequentially before the threads start (overrides)
 	Bound     int       ` + "`json:\"bound\"`" + `
 	MaxExec   int       ` + "`json:\"max_exec\"`" + `
 	BudgetSec int       ` + "`json:\"budget_sec\"`" + `
@@ -438,6 +439,9 @@ func runOnce(factory func() any, spec *Spec, plan []int, controlled bool) exec {
 	ctxs := map[string]context.Context{}
 	for _, n := range spec.Contexts {
 		rt.MakeCtx(c, ctxs, n)
+	}
+	for _, op := range spec.Setup {
+		rt.RunOp(c, ctxs, op)
 	}
 	results := make([][]rt.Result, len(spec.Threads))
 	var bodies []func()
@@ -614,6 +618,7 @@ import (
 type Spec struct {
 	Threads    [][]rt.Op ` + "`json:\"threads\"`" + `
 	Contexts   []string  ` + "`json:\"contexts\"`" + `
+	Setup      []rt.Op   ` + "`json:\"setup,omitempty\"`" + `
 	Goroutines int       ` + "`json:\"goroutines\"`" + `
 	Rounds     int       ` + "`json:\"rounds\"`" + `
 	Seed       int64     ` + "`json:\"seed\"`" + `
@@ -679,6 +684,9 @@ func Main(factory func() any) {
 		for _, n := range spec.Contexts {
 			rt.MakeCtx(c, ctxs, n)
 		}
+		for _, op := range spec.Setup {
+			rt.RunOp(c, ctxs, op)
+		}
 		rs := make([]rt.Result, len(ops))
 		for i, op := range ops {
 			rs[i] = rt.RunOp(c, ctxs, op)
@@ -691,6 +699,9 @@ func Main(factory func() any) {
 		ctxs := map[string]context.Context{}
 		for _, n := range spec.Contexts {
 			rt.MakeCtx(c, ctxs, n)
+		}
+		for _, op := range spec.Setup {
+			rt.RunOp(c, ctxs, op)
 		}
 		var wg sync.WaitGroup
 		start := make(chan struct{})
